@@ -213,6 +213,8 @@ pub struct Engine {
     /// cut-with-abstraction groups: goals whose name starts with the group are emitted with these
     /// term nodes replaced by fresh variables (in the goal, the hypotheses, Pre and the path condition)
     pub absgroups: Vec<(String, Vec<u32>)>,
+    /// (group, lemma goal name): goals of the group are only as good as these lemma goals
+    pub lemma_deps: Vec<(String, String)>,
     // concrete replay
     pub inputs: HashMap<String, String>,
     pub drawn: Vec<(String, String)>,
@@ -244,6 +246,7 @@ impl Default for Engine {
             notes: vec![],
             hyps: vec![],
             absgroups: vec![],
+            lemma_deps: vec![],
             inputs: HashMap::new(),
             drawn: vec![],
             rng: 0x9E3779B97F4A7C15,
@@ -274,6 +277,7 @@ impl Engine {
         self.notes.clear();
         self.hyps.clear();
         self.absgroups.clear();
+        self.lemma_deps.clear();
         self.drawn.clear();
         self.check_defined = false;
         self.ite_mode = false;
@@ -369,6 +373,13 @@ pub fn abstract_terms<T: Sc>(group: &str, terms: &[T]) {
             e.absgroups.push((group.to_string(), ids));
         }
     });
+}
+/// A lemma: proved as the goal `name`, and available as a hypothesis to the goals named `group…`.
+/// The driver counts a dependent goal as discharged only if all its lemmas were discharged on that path.
+pub fn lemma(group: &str, name: &str, f: Fm) {
+    goal(name, f.clone());
+    hyp(group, f);
+    with(|e| e.lemma_deps.push((group.to_string(), name.to_string())));
 }
 pub fn note(s: &str) {
     with(|e| e.notes.push(s.to_string()));
